@@ -20,7 +20,7 @@ From UV.Gen Require Import Tables.
 From UV.Py Require Import PyStr.
 From UV.Vers Require Import Model VersText TotalityProofs.
 From UV.Schemes Require Import Common Generic LegacyOpenssl Gentoo Debian Semver TotalityProofs.
-From UV.Schemes Require Import Rpm Gem Arch Openssl TotalityProofs2 Pypi Maven.
+From UV.Schemes Require Import Rpm Gem Arch Openssl TotalityProofs2 Pypi Maven Nuget Conan NugetConanProofs.
 Import ListNotations.
 
 Theorem C16_from_string_fails_only_with_declared_errors :
@@ -53,8 +53,10 @@ Theorem C16_later_constructors_fail_only_with_InvalidVersion :
   (forall s e, arch_ctor s = Err e -> e = EInvalidVersion) /\
   (forall s e, ossl_ctor s = Err e -> e = EInvalidVersion) /\
   (forall s e, pypi_ctor s = Err e -> e = EInvalidVersion) /\
-  (forall s, exists v, maven_ctor s = Ok v).
-Proof. repeat split; [exact rpm_ctor_declared|exact gem_ctor_declared|exact arch_ctor_declared|exact ossl_ctor_declared|exact pypi_ctor_declared|exact maven_ctor_total]. Qed.
+  (forall s, exists v, maven_ctor s = Ok v) /\
+  (forall s e, nuget_ctor s = Err e -> e = EInvalidVersion) /\
+  (forall s, exists v, conan_ctor s = Ok v).
+Proof. repeat split; [exact rpm_ctor_declared|exact gem_ctor_declared|exact arch_ctor_declared|exact ossl_ctor_declared|exact pypi_ctor_declared|exact maven_ctor_total|exact nuget_ctor_declared|exact conan_ctor_total]. Qed.
 
 (* the builders behind the validity checks cannot raise *)
 Theorem C16_no_internal_error_behind_the_validity_checks :
